@@ -189,7 +189,7 @@ def merge_calls(calls):
         sh = lambda a: None if a is None else [x + off for x in a] if isinstance(a, list) else a + off  # noqa: E731
         d = {k: copy.deepcopy(v) for k, v in c.items() if k != "vars"}
         d["args"] = [sh(a) for a in c["args"]]
-        if c.get("sub"):
+        if c.get("sub") and c["op"] in ("If", "Loop"):  # these name outer-scope Vars; Scan/SequenceMap name body inputs
             d["sub"] = {k: [x if x == "same" else x + off for x in v] for k, v in c["sub"].items()}
         out.append(d)
     return {"vars": vars_, "calls": out, "facets": ["earlier call of this process"] * (len(out) - 1) + ["failing call"]}
@@ -555,7 +555,7 @@ def run(ck: core.Check):
             return
         if req is None:
             stats["no_node_observed"] += 1
-            if sp["raised"] not in ("TypeError", "AssertionError", "ValueError"):
+            if sp["raised"] is None:  # (a constructor may raise before it creates the node)
                 brk(ck, "correspondence", "no node object observed for a call", f"e.g. {op.key}: {sp['raised']}: {sp.get('msg')}"[:300])
             return
         reqs.append(req)
@@ -625,7 +625,7 @@ def run(ck: core.Check):
         "onnx.shape_inference.infer_shapes is invariant under injective renaming of value names and ignores graph inputs / initializers the node does not read (hypotheses InferOK of eager_agrees; observed by the oracle, which uses its own names and no extra inputs)",
         "an attribute left at its default denotes the same node whether omitted or written with the schema default (the oracle accepts either representative: ONNX's ArgMax/ArgMin inference treats them differently for rank-0 inputs)",
         "call histories: 2-4 calls of one operator in one process on shared Vars, differing in one facet (output count, one attribute, a constant's value, an optional input, an input shape), both orders; each call judged against fresh inference",
-        "If / Loop are generated with Identity bodies over outer-scope values; Scan / SequenceMap are not generated",
+        "If / Loop / Scan / SequenceMap are generated with Identity bodies (over outer-scope values resp. body inputs)",
     ]
     ck.trusted_base += [
         "harness/lib_c05.py: schema-driven generator, capture of the inference request by wrapping onnx.shape_inference.infer_shapes and Node.inference, canonicalisation of TypeProtos",
